@@ -1511,7 +1511,7 @@ int main(int argc, char **argv)
         return 0;
     }
     if (mode == "replay" && argc >= 5)
-        return modeReplay(argv[2], argv[3], argv[4]);
-    fprintf(stderr, "usage: informed record <trace> <tier> [jobs] | one <tier> <job> | list <tier> | replay <rows> <trace> <calls>\n");
+        return modeReplay(argv[2], argv[3], argv[4], argc > 5 ? atoi(argv[5]) : 1);
+    fprintf(stderr, "usage: informed record <trace> <tier> [jobs] | one <tier> <job> | list <tier> | replay <rows> <trace> <calls> [reps]\n");
     return 3;
 }
